@@ -57,7 +57,7 @@ func openRollback(se *shimEndpoints, del ssa.Instruction) bool {
 	if len(st) != 1 || !Dominates(st[0], del) || !SameValue(Args(CallOf(st[0]))[1], Args(CallOf(del))[1]) {
 		return false
 	}
-	w := ssa.Value(in.Params[0])
+	w := ssa.Value(ParamAt(in, 0))
 	isErr := func(i ssa.Instruction) bool { s, ok := producesResponse(i, w); return ok && s >= 400 }
 	isOK := func(i ssa.Instruction) bool { s, ok := producesResponse(i, w); return ok && s < 400 }
 	if hit, _ := (&Walk{Target: func(i ssa.Instruction) bool { return IsReturn(i) || isOK(i) }, Avoid: isErr}).FromInstr(del); hit != nil {
@@ -105,7 +105,7 @@ func ruleNoGetBody(c *Ctx, p *Prog, rule string) {
 	}
 	if f := p.Func("agent/utils.postResponseWithRetries"); f != nil {
 		for _, nr := range Calls(f, "net/http.NewRequest", "net/http.NewRequestWithContext") {
-			a := CallOf(nr).Args
+			a := PArgs(CallOf(nr))
 			body := a[len(a)-1]
 			if mi, ok := body.(*ssa.MakeInterface); ok {
 				switch NamedType(mi.X.Type()) {
@@ -502,17 +502,17 @@ func keyShape(p *Prog, v ssa.Value, env map[*ssa.Parameter]ssa.Value, depth int)
 		return "", nil, nil, false
 	}
 	if CalleeName(call.Common()) == "strconv.Quote" {
-		return "%q", []string{"q"}, []ssa.Value{subst(call.Call.Args[0])}, true
+		return "%q", []string{"q"}, []ssa.Value{subst(PArgs(&call.Call)[0])}, true
 	}
 	if CalleeName(call.Common()) == "fmt.Sprintf" {
-		f, isC := ConstString(call.Call.Args[0])
+		f, isC := ConstString(PArgs(&call.Call)[0])
 		if !isC {
 			return "", nil, nil, false
 		}
 		// variadic arguments in index order
 		var vals []ssa.Value
-		if len(call.Call.Args) > 1 {
-			if sl, isS := call.Call.Args[1].(*ssa.Slice); isS {
+		if len(PArgs(&call.Call)) > 1 {
+			if sl, isS := PArgs(&call.Call)[1].(*ssa.Slice); isS {
 				if arr, isA := sl.X.(*ssa.Alloc); isA {
 					byIdx := map[int64]ssa.Value{}
 					for _, r := range Refs(arr) {
@@ -567,8 +567,8 @@ func keyShape(p *Prog, v ssa.Value, env map[*ssa.Parameter]ssa.Value, depth int)
 		}
 		env2 := map[*ssa.Parameter]ssa.Value{}
 		for k, prm := range f.Params {
-			if k < len(call.Call.Args) {
-				env2[prm] = subst(call.Call.Args[k])
+			if k < len(PArgs(&call.Call)) {
+				env2[prm] = subst(PArgs(&call.Call)[k])
 			}
 		}
 		return keyShape(p, ReturnValue(rs[0], 0), env2, depth+1)
@@ -674,7 +674,7 @@ func ruleNoLockAcrossRPC(c *Ctx, p *Prog, rule string) {
 			name := CalleeName(cc)
 			remote := strings.Contains(name, "cloud.google.com/") || strings.Contains(name, "google.golang.org/api") || strings.Contains(name, "google.golang.org/grpc") || strings.HasPrefix(name, "(*net/http.Client)") || strings.HasPrefix(name, "net/http.")
 			// the monitoring client behind the package's own interface: a method taking a context is an RPC
-			if cc.IsInvoke() && len(cc.Args) > 0 && NamedType(cc.Args[0].Type()) == "context.Context" && strings.Contains(name, "agent/metrics.") {
+			if cc.IsInvoke() && len(PArgs(cc)) > 0 && NamedType(PArgs(cc)[0].Type()) == "context.Context" && strings.Contains(name, "agent/metrics.") {
 				remote = true
 			}
 			if !remote {
@@ -945,7 +945,7 @@ func ruleIndexSliceAgreement(c *Ctx, p *Prog, rule string, pkgs ...string) {
 					continue
 				}
 				n++
-				src := CallOf(call).Args[0]
+				src := PArgs(CallOf(call))[0]
 				EachInstr(fn, func(i ssa.Instruction) {
 					sl, ok := i.(*ssa.Slice)
 					if !ok {
@@ -1009,8 +1009,8 @@ func ruleReplayDoesNotWaitForSource(c *Ctx, p *Prog, rule string) {
 		if !ok {
 			return
 		}
-		if b, isB := call.Call.Value.(*ssa.Builtin); isB && b.Name() == "copy" && len(call.Call.Args) == 2 {
-			if sl, isS := call.Call.Args[1].(*ssa.Slice); isS {
+		if b, isB := call.Call.Value.(*ssa.Builtin); isB && b.Name() == "copy" && len(PArgs(&call.Call)) == 2 {
+			if sl, isS := PArgs(&call.Call)[1].(*ssa.Slice); isS {
 				if _, f, ok := FieldLoad(sl.X); ok && f == "buf" {
 					replay = call
 				}
@@ -1065,7 +1065,7 @@ func ruleDialHandshakeBounded(c *Ctx, p *Prog, rule string) {
 					k, isC := ConstInt(v)
 					return isC && k > 0
 				}
-				for _, r := range Roots(cc.Args[0]) {
+				for _, r := range Roots(PArgs(cc)[0]) {
 					if u, isU := r.(*ssa.UnOp); isU && u.Op == token.MUL {
 						if g, isG := u.X.(*ssa.Global); isG {
 							r = g
@@ -1117,11 +1117,11 @@ func ruleDialHandshakeBounded(c *Ctx, p *Prog, rule string) {
 							why = "the websocket.Dialer literal sets no positive HandshakeTimeout"
 						}
 					default:
-						why = "the dialer " + PathOf(cc.Args[0]) + " is not one this rule can resolve"
+						why = "the dialer " + PathOf(PArgs(cc)[0]) + " is not one this rule can resolve"
 					}
 				}
 				if !bounded && CalleeName(cc) == "(*github.com/gorilla/websocket.Dialer).DialContext" {
-					for _, r := range Roots(cc.Args[1]) {
+					for _, r := range Roots(PArgs(cc)[1]) {
 						if CallResult(r, 0, "context.WithTimeout") != nil || CallResult(r, 0, "context.WithDeadline") != nil {
 							bounded = true
 						}
